@@ -97,8 +97,22 @@ def gen_est_case(rng, kind="random"):
             priors.append({"kind": "M", "mu": str(Fr(rng.randint(1, 8), 2)), "kappa": rng.randint(0, 2), "rho": rho})
         if "E" in which:
             priors.append({"kind": "E", "mu": str(Fr(rng.randint(1, 8), 2)), "mean": [str(Fr(rng.randint(-4, 4), 2)) for _ in range(n)]})
-    return {"op": "est", "kind": kind, "n": n, "m": m, "p": p, "icpt": icpt, "dof": dof, "cols": cols,
+    case = {"op": "est", "kind": kind, "n": n, "m": m, "p": p, "icpt": icpt, "dof": dof, "cols": cols,
             "variants": variants, "priors": priors}
+    add_options(rng, case)
+    return case
+
+
+def add_options(rng, case):
+    """non-default ways of calling estimate and call histories on the estimated object (the property holds for what the call
+    RETURNS and for every later call, whatever was called before):
+    target: None | plain (target_db without the output names) | stale (target_db = the input databox already holding res_*
+            series, as left by an earlier estimation) | prelim (a first estimation of another order into the same databox);
+    history: calls made on the estimated object before the ones whose results are checked"""
+    case["target"] = rng.weighted([(None, 5), ("plain", 1), ("stale", 3), ("prelim", 3)])
+    case["stale_seed"] = rng.randint(0, 10**6)
+    k = rng.weighted([(0, 4), (1, 3), (2, 2), (3, 1)])
+    case["history"] = [rng.choice(["compdev", "simdev", "comp", "sim", "mean"]) for _ in range(k)]
 
 
 def noise_free_data(rng, n, m, p, icpt, cols):
@@ -150,8 +164,10 @@ def gen_sim_case(rng):
                 E[i][t] = str(Fr(Y[i][t]) - v)
     else:
         E = [[str(Fr(rng.randint(-8, 8), 4)) for _ in range(cols)] for _ in range(n)]
+    # the calls made, in this order, on ONE RedVAR object: ordinary and deviation-mode simulations
+    calls = rng.weighted([(["ord"], 3), (["dev", "ord"], 3), (["ord", "dev", "ord"], 2), (["dev", "dev", "ord", "ord"], 1), (["ord", "dev"], 1)])
     return {"op": "sim", "n": n, "m": m, "p": p, "cols": cols, "A": A, "B": B, "c": c, "Y": Y, "X": X, "E": E,
-            "t0": t0, "t1": t1, "exact_resid": exact_resid}
+            "t0": t0, "t1": t1, "exact_resid": exact_resid, "calls": list(calls)}
 
 
 def gen_comp_case(rng):
@@ -160,7 +176,9 @@ def gen_comp_case(rng):
     c = [str(Fr(rng.randint(-4, 4), 2)) for _ in range(n)] if icpt else None
     if icpt and rng.chance(0.15):
         c = ["0"] * n
-    return {"op": "comp", "n": n, "p": p, "icpt": icpt, "A": A, "c": c}
+    # deviation flags of successive _get_companion_solution calls on ONE Variant
+    calls = rng.weighted([([False], 3), ([True, False], 3), ([False, True, False], 2), ([True, True, False], 1)])
+    return {"op": "comp", "n": n, "p": p, "icpt": icpt, "A": A, "c": c, "calls": list(calls)}
 
 
 # ---------------------------------------------------------------------------------------
@@ -197,6 +215,14 @@ def sim_line(case):
         ws += [x for row in case[key] for x in row]
     ws += [case["t0"], case["t1"]]
     return " ".join(str(w) for w in ws)
+
+
+def sim_dev_line(case):
+    """deviation mode: no intercept, no exogenous impact"""
+    c2 = dict(case)
+    c2["B"] = [["0"] * case["m"] for _ in range(case["n"])]
+    c2["c"] = ["0"] * case["n"]
+    return sim_line(c2)
 
 
 def comp_line(case):
@@ -279,9 +305,36 @@ def run_impl_est(case):
             priors = tuple(make_prior(pr, n) for pr in case["priors"])
             if len(priors) == 1:
                 priors = priors[0]
+        target = case.get("target")
+        kw = {}
+        extra = None
+        if target is not None:
+            extra = ir.Series(start=START, values=np.arange(cols, dtype=float))
+            if target == "plain":
+                tdb = ir.Databox(); tdb["extra"] = extra
+            else:
+                # the usual workflow `db = v.estimate(db, span, target_db=db)` applied a second time: the target already holds res_*
+                tdb = db; tdb["extra"] = extra
+                stale_done = False
+                if target == "prelim":
+                    try:
+                        p0 = p % 3 + 1
+                        v0 = ir.RedVAR(en, exogenous_names=xn or None, order=p0, intercept=True, num_variants=nvar)
+                        with warnings.catch_warnings(), np.errstate(all="ignore"):
+                            warnings.simplefilter("ignore")
+                            db = v0.estimate(db, (START + p0) >> (START + cols - 1), target_db=db, num_variants=nvar)
+                        tdb = db
+                        stale_done = all(("res_" + nm) in db.keys() for nm in en)
+                    except Exception:
+                        stale_done = False
+                if not stale_done:
+                    srng = np.random.default_rng(case.get("stale_seed", 0))
+                    for nm in en:
+                        db["res_" + nm] = ir.Series(start=START, values=srng.integers(-9, 10, size=(cols, nvar)).astype(float))
+            kw["target_db"] = tdb
         with warnings.catch_warnings(), np.errstate(all="ignore"):
             warnings.simplefilter("ignore")      # division by T_fitted - K = 0 (the model answers err:dof) only warns
-            out = v.estimate(db, span, dof_correction=case["dof"], prior_obs=priors, num_variants=nvar)
+            out = v.estimate(db, span, dof_correction=case["dof"], prior_obs=priors, num_variants=nvar, **kw)
     except Exception as e:
         return {"error": impl_err(e), "exc": repr(e)[:300]}
     res = []
@@ -296,6 +349,12 @@ def run_impl_est(case):
         r["u_db"] = np.array([out["res_" + nm].get_data(full)[:, vid] for nm in en])
         res.append(r)
     info = {"variants": res, "model": v, "out": out, "span": span, "full": full, "en": en, "xn": xn}
+    # what the call returns also carries the data it was given and, with target_db, everything else the target held
+    try:
+        info["out_y"] = [np.array([out[nm].get_data(full)[:, vid] for nm in en]) for vid in range(nvar)]
+        info["out_extra"] = None if case.get("target") is None else (np.array(out["extra"].get_data(full)[:, 0]) if "extra" in out.keys() else "missing")
+    except Exception as e:
+        info["out_exc"] = repr(e)[:300]
     return info
 
 
@@ -304,6 +363,24 @@ def impl_post(case, info):
     v, out, span, full, en = info["model"], info["out"], info["span"], info["full"], info["en"]
     nvar = len(case["variants"])
     post = {}
+    # call history on the estimated object: results of the calls below must not depend on what was called before
+    for op in case.get("history") or []:
+        try:
+            with warnings.catch_warnings():
+                warnings.simplefilter("ignore")
+                if op == "compdev":
+                    devs = v.get_companion_matrices(unpack_singleton=False, deviation=True)
+                    post.setdefault("compdev", []).append(devs)
+                elif op == "comp":
+                    v.get_companion_matrices(unpack_singleton=False)
+                elif op == "simdev":
+                    v.simulate(out, span, num_variants=nvar, deviation=True)
+                elif op == "sim":
+                    v.simulate(out, span, num_variants=nvar)
+                elif op == "mean":
+                    v.get_mean(unpack_singleton=False)
+        except Exception:
+            pass      # a failing call is judged where its result is checked (below), not in the history
     # per variant, so that a singular variant does not hide the others
     post["mean"], post["mean_excs"] = [], []
     for var in v._variants:
@@ -350,9 +427,12 @@ def run_impl_sim(case):
     c = np.array([float(Fr(x)) for x in case["c"]], dtype=float)
     v._variants = [Variant(A=A, B=B, c=c, cov_residuals=np.eye(n))]
     span = (START + case["t0"]) >> (START + case["t1"])
-    sim = v.simulate(db, span)
     full = START >> (START + cols - 1)
-    return np.array([sim[nm].get_data(full)[:, 0] for nm in en])
+    outs = []
+    for call in case.get("calls") or ["ord"]:
+        sim = v.simulate(db, span, deviation=(call == "dev"))
+        outs.append((call, np.array([sim[nm].get_data(full)[:, 0] for nm in en])))
+    return outs
 
 
 def show_exact(arr):
@@ -523,7 +603,18 @@ def oracle_est(ctx: Ctx, case, info, post):
         # residual series written to the databox = residual array on the base periods, 0 on the pre-sample
         udb = r["u_db"]
         if not (close(udb[:, p:], u, tol=0) and np.all(udb[:, :p] == 0)):
-            ctx.fail("residual-write-back", small(case), f"variant {vid}: residual series differ from the residual estimates")
+            ctx.fail("residual-write-back", small(case), f"variant {vid}: the res_* series of the databox RETURNED by estimate"
+                     f"{'(target_db=' + str(case.get('target')) + ')' if case.get('target') else ''} differ from the residual estimates, "
+                     "so fitted equation + returned residual does not reproduce the data")
+        # the returned databox also carries the data it was given and, with target_db, whatever else the target held
+        if "out_exc" in info:
+            ctx.fail("returned-databox", small(case), f"variant {vid}: reading the returned databox raised " + info["out_exc"])
+        else:
+            Yin = np.array([[np.nan if x is None else x for x in row] for row in case["variants"][vid]["Y"]], dtype=float)
+            if not close(info["out_y"][vid], Yin, tol=0):
+                ctx.fail("returned-databox", small(case), f"variant {vid}: the endogenous series in the returned databox are not the input data")
+            if info.get("out_extra") is not None and not (isinstance(info["out_extra"], np.ndarray) and np.array_equal(info["out_extra"], np.arange(cols, dtype=float))):
+                ctx.fail("returned-databox", small(case), f"variant {vid}: a series of target_db that is not an output name was not carried over unchanged")
         # (4) residual covariance
         Tw = int(complete.sum())
         denom = Tw - (K if case["dof"] else 0)
@@ -561,6 +652,10 @@ def oracle_est(ctx: Ctx, case, info, post):
                 Kc[:n] = r["c"]
             if not (np.array_equal(np.array(sol.T), Tc) and np.array_equal(np.array(sol.K), Kc) and np.array_equal(np.array(sol.P), np.eye(n * p, n))):
                 ctx.fail("companion-form", small(case), f"variant {vid}: companion T/K/P are not [A; I 0], [c; 0], [I; 0]")
+        for devs in post.get("compdev", []):
+            sd = devs[vid]
+            if not (np.array_equal(np.array(sd.T), Tc) and np.array_equal(np.array(sd.K), np.zeros(n * p))):
+                ctx.fail("companion-form", small(case), f"variant {vid}: deviation-mode companion form is not [A; I 0] with a zero constant")
         if "eig_exc" in post:
             ctx.fail("eigenvalues-raise", small(case), post["eig_exc"])
         elif "eig" in post and well:
@@ -722,6 +817,7 @@ def do_est_cases(ctx: Ctx, cases, with_model=True):
         ctx.count("est:intercept=" + str(case["icpt"])); ctx.count("est:dof=" + str(case["dof"]))
         ctx.count("est:priors=" + ("none" if case["priors"] is None else "+".join(pr["kind"] for pr in case["priors"])))
         ctx.count("est:variants=" + str(nv)); ctx.count("est:kind=" + case["kind"])
+        ctx.count("est:target_db=" + str(case.get("target"))); ctx.count("est:history=" + ("+".join(case.get("history") or []) or "none"))
         nmiss = sum(1 for v in case["variants"] for row in v["Y"] + v["X"] for x in row if x is None)
         ctx.count("est:missing-cells=" + str(min(nmiss, 3)))
         oracle_est(ctx, case, info, post)
@@ -735,38 +831,55 @@ def do_est_cases(ctx: Ctx, cases, with_model=True):
 
 
 def do_sim_cases(ctx: Ctx, cases, with_model=True):
-    lines = [sim_line(c) for c in cases]
+    lines, slot = [], []
+    for c in cases:
+        slot.append(len(lines))
+        lines.append(sim_line(c))
+        if "dev" in (c.get("calls") or []):
+            lines.append(sim_dev_line(c))
     replies = ctx.model("C18", lines) if with_model else None
     impl_out = []
     for ci, case in enumerate(cases):
         ctx.evaluations += 1
         n, m, p, cols = case["n"], case["m"], case["p"], case["cols"]
+        calls = case.get("calls") or ["ord"]
         ctx.count(f"sim:p={p},exog={'yes' if m else 'no'}")
+        ctx.count("sim:calls=" + "+".join(calls))
         try:
-            path = run_impl_sim(case)
-            out = show_exact(path)
+            outs = run_impl_sim(case)
+            shown = [(call, show_exact(path)) for call, path in outs]
         except Exception as e:
-            path = None
-            out = "err:bad " + repr(e)[:200]
-        impl_out.append(out)
-        # property: with residuals defined as data minus fit, the simulation returns the data (exactly: dyadic inputs)
+            outs = None
+            shown = [("ord", "err:bad " + repr(e)[:200])]
+        impl_out.append(shown)
+        # property: with residuals defined as data minus fit, the (ordinary) simulation returns the data (exactly: dyadic inputs),
+        # at every call, whatever was called on the object before
         if case["exact_resid"]:
             Y = np.array(case["Y"], dtype=float)
-            if path is None:
-                ctx.fail(sim_raise_site(m, p, out), case, "RedVAR.simulate raised: " + out)
-            elif not np.array_equal(path, Y):
-                site = "simulate-initial-condition" if p > 1 else "simulate-reproduces-data"
-                ctx.fail(site, case, f"simulation with residuals = data - fit does not return the data: first differing column "
-                         f"{int(np.argmax(np.any(path != Y, axis=0)))}")
-            ctx.nontriv(("sim-exact", n, m, p, case["t1"] - case["t0"] + 1))
+            if outs is None:
+                ctx.fail(sim_raise_site(m, p, shown[0][1]), case, "RedVAR.simulate raised: " + shown[0][1])
+            else:
+                for k, (call, path) in enumerate(outs):
+                    if call == "ord" and not np.array_equal(path, Y):
+                        site = "simulate-initial-condition" if (p > 1 and k == 0) else "simulate-reproduces-data"
+                        ctx.fail(site, case, f"call {k + 1} of {calls}: simulation with residuals = data - fit does not return the data: "
+                                 f"first differing column {int(np.argmax(np.any(path != Y, axis=0)))}")
+                        break
+            ctx.nontriv(("sim-exact", n, m, p, case["t1"] - case["t0"] + 1, tuple(calls)))
         if ci < 1:
-            ctx.sample({"stream": "sim", "case": case, "implementation": out})
+            ctx.sample({"stream": "sim", "case": case, "implementation": shown[-1][1]})
     if replies is not None:
         ctx.streams_compared["sim"] = ctx.streams_compared.get("sim", 0) + len(cases)
-        for case, a, b in zip(cases, impl_out, replies):
-            if a.startswith("err") or canon_qmat_text(a) != canon_qmat_text(b):
-                if len([d for d in ctx.disagreements if d["stream"] == "sim"]) < 10:
-                    ctx.disagree("sim", case, a[:300], b[:300])
+        for ci, (case, shown) in enumerate(zip(cases, impl_out)):
+            for call, a in shown:
+                b = replies[slot[ci]] if call == "ord" else replies[slot[ci] + 1]
+                stream = "sim" if call == "ord" else "sim-deviation"
+                if call == "dev":
+                    ctx.streams_compared[stream] = ctx.streams_compared.get(stream, 0) + 1
+                if a.startswith("err") or canon_qmat_text(a) != canon_qmat_text(b):
+                    if len([d for d in ctx.disagreements if d["stream"] == stream]) < 10:
+                        ctx.disagree(stream, case, a[:300], b[:300])
+                    break
 
 
 def do_comp_cases(ctx: Ctx, cases, with_model=True):
@@ -778,7 +891,24 @@ def do_comp_cases(ctx: Ctx, cases, with_model=True):
         A = np.array([[float(Fr(x)) for x in row] for row in case["A"]], dtype=float).reshape(n, n * p)
         c = None if case["c"] is None else np.array([float(Fr(x)) for x in case["c"]])
         var = Variant(A=A, B=np.zeros((n, 0)), c=c, cov_residuals=np.eye(n))
-        sol = var._get_companion_solution()
+        # successive requests on ONE variant, ordinary and deviation mode; the reported companion form must be [A; I 0], [c; 0]
+        # at every ordinary request and have a zero constant at every deviation request
+        Kwant = np.zeros(n * p)
+        if c is not None:
+            Kwant[:n] = c
+        calls = case.get("calls") or [False]
+        ctx.count("comp:calls=" + "+".join("dev" if d else "ord" for d in calls))
+        sol = None
+        for k, dev in enumerate(calls):
+            sk = var._get_companion_solution(deviation=dev)
+            if not np.array_equal(np.array(sk.K), np.zeros(n * p) if dev else Kwant):
+                ctx.fail("companion-form", case, f"request {k + 1} of {['dev' if d else 'ord' for d in calls]}: companion K = "
+                         f"{np.array(sk.K).tolist()}, expected {'zeros' if dev else Kwant.tolist()}")
+                break
+            if not dev:
+                sol = sk
+        if sol is None:
+            sol = var._get_companion_solution()
         Tt = show_exact(np.array(sol.T)); Kt = " ".join(rat_of_float(x) for x in np.array(sol.K))
         Asum = sum(A[:, l * n:(l + 1) * n] for l in range(p))
         IA = np.eye(n) - Asum
@@ -818,8 +948,10 @@ def gen_est_case_nf(rng):
     for _ in range(nvar):
         Y, X = noise_free_data(rng, n, m, p, icpt, cols)
         variants.append({"Y": Y, "X": X}); gens.append(noise_free_data.last)
-    return {"op": "est", "kind": "noisefree", "n": n, "m": m, "p": p, "icpt": icpt, "dof": dof, "cols": cols,
+    case = {"op": "est", "kind": "noisefree", "n": n, "m": m, "p": p, "icpt": icpt, "dof": dof, "cols": cols,
             "variants": variants, "priors": None, "gen": gens}
+    add_options(rng, case)
+    return case
 
 
 def all_cases(ctx: Ctx, scale=1):
